@@ -548,6 +548,7 @@ func rulesC14(c *Ctx) {
 	ruleC14Union(c)
 	ruleC14Empty(c)
 	ruleC14Direction(c, cts)
+	ruleEntityBucketDescent(c, "C14.ENTITYBUCKET")
 	ruleC14Wrap(c)
 }
 
